@@ -219,10 +219,11 @@ static void kind_session(Tape &t)
 	int code = client_hello_mfln_code(S), echo = server_hello_mfln_code(S);
 	int want = cm == 16384 ? -1 : cm == 512 ? 1 : cm == 1024 ? 2 : cm == 2048 ? 3 : 4;
 	VF_CHECK(code == want, "%s: ClientHello max_fragment_length code %d, expected %d", desc.c_str(), code, want);
-	// RFC 6066: the server MAY accept by echoing the same value (BearSSL echoes when the request is below its own
-	// limit); an echo, when present, carries exactly the requested code and is never unsolicited
+	// RFC 6066: the server accepts by echoing the same value; an echo, when present, carries exactly the requested code
+	// and is never unsolicited.  Every request the server is able to honour (not above its own limit) is acknowledged:
+	// without the acknowledgement the client is not bound to the length, and the server's input buffer is too small.
 	if (echo != -1) VF_CHECK(echo == want && want > 0, "%s: ServerHello echoes max_fragment_length code %d, client sent %d", desc.c_str(), echo, want);
-	if (want > 0 && cm < sm) VF_CHECK(echo == want, "%s: request %d (below the server's own %zu) was not echoed (echo %d)", desc.c_str(), want, sm, echo);
+	if (want > 0 && cm <= sm) VF_CHECK(echo == want, "%s: request %d (not above the server's own %zu) was not echoed (echo %d)", desc.c_str(), want, sm, echo);
 	VF_CHECK(br_ssl_engine_get_mfln_negotiated(c.eng) == (echo > 0 ? 1 : 0), "%s: get_mfln_negotiated()=%d on the client, but the ServerHello %s", desc.c_str(),
 		br_ssl_engine_get_mfln_negotiated(c.eng), echo > 0 ? "echoed the extension" : "did not echo the extension");
 	check_record_sizes(S, 0, c_eff, c_eff, desc, false);
@@ -274,7 +275,16 @@ static void kind_openssl(Tape &t)
 		if (sp.layout == L_BIDI) sp.buflen = BR_SSL_BUFSIZE_BIDI;
 		cp.ossl_mfln = (int)cls + 1;
 		OsslEndpoint c(true, cp);
-		c.max_send_fragment = MFL[cls];
+		// the server's own limit: 16384 (optimal buffers), exactly the length the client asks for, or one class above it.
+		// In the last two cases nothing but the negotiated extension keeps the client's records within the server's input
+		// buffer, so the session works only if the server acknowledges every request it is able to honour.
+		unsigned scls = t.u8() % 3;
+		size_t slimit = 16384;
+		if (scls) {
+			slimit = MFL[std::min<unsigned>(cls + scls - 1, 3)];
+			if (sp.layout == L_BIDI) sp.layout = L_SPLIT;
+			sp.buflen = slimit + 325; sp.ilen = slimit + 325; sp.olen = slimit + 85;
+		} else c.max_send_fragment = MFL[cls];
 		BearServer s(sp);
 		VF_CHECK(s.reset(), "reset");
 		Session S(&c, &s);
@@ -283,7 +293,7 @@ static void kind_openssl(Tape &t)
 		S.script[0].push_back(Item{ IT_WAIT_PEER_IDLE, 0, true });
 		S.script[0].push_back(Item{ IT_CLOSE, 0, true });
 		S.run(2000000);
-		desc = fmt("openssl client asking %zu <-> bear server %s TLS%s", MFL[cls], si->name, ver_name(version));
+		desc = fmt("openssl client asking %zu <-> bear server (own limit %zu) %s TLS%s", MFL[cls], slimit, si->name, ver_name(version));
 		int code = client_hello_mfln_code(S);
 		VF_CHECK(S.established && s.error() == 0 && S.recvd[0] == S.sent[0] && S.recvd[1] == S.sent[1], "%s: failed (server error %d)", desc.c_str(), s.error());
 		if (code > 0) {
